@@ -296,3 +296,74 @@ func VerifC03TopNStep() {
 		vh.Assert(vh.Implies(!forced, nowOpted == opted[i]), "C03.step.no-other-opt-in-created")
 	}
 }
+
+// VerifC02ListUpdate: SetConsumerPowerShapingParameters twice (first list,
+// then replacement list; every list has 0..2 entries drawn from three
+// validators, repetitions allowed): afterwards the allowlist, denylist and
+// prioritylist indexes consulted by the validator-set computation hold exactly
+// the addresses of the latest lists, and the stored parameters are the latest.
+func VerifC02ListUpdate() {
+	nv := 3
+	cid := "1"
+	e := newVEnv(1)
+	addrs := make([]string, nv)
+	for i := range addrs {
+		addrs[i] = vConsAddr(i).String()
+	}
+	kind := vh.ConcretizeInt(vh.Int("list_kind"), 0, 2) // 0 allow, 1 deny, 2 priority
+	pick := func(name string) []string {
+		n := vh.ConcretizeInt(vh.Int(name+"_len"), 0, 2)
+		var l []string
+		for j := 0; j < n; j++ {
+			l = append(l, addrs[vh.ConcretizeInt(vh.Int(vh.Sprintf("%s_%d", name, j)), 0, nv-1)])
+		}
+		return l
+	}
+	mk := func(l []string, cap uint32) types.PowerShapingParameters {
+		p := types.PowerShapingParameters{ValidatorSetCap: cap}
+		switch kind {
+		case 0:
+			p.Allowlist = l
+		case 1:
+			p.Denylist = l
+		default:
+			p.Prioritylist = l
+		}
+		return p
+	}
+	first, second := pick("first"), pick("second")
+	vh.Assert(e.k.SetConsumerPowerShapingParameters(e.ctx, cid, mk(first, 1)) == nil, "C02.lists.set-no-error")
+	vh.Assert(e.k.SetConsumerPowerShapingParameters(e.ctx, cid, mk(second, 2)) == nil, "C02.lists.set-no-error")
+	vh.Reach("after-update")
+	got, err := e.k.GetConsumerPowerShapingParameters(e.ctx, cid)
+	vh.Assert(err == nil && got.ValidatorSetCap == 2, "C02.lists.latest-parameters-stored")
+	for i := 0; i < nv; i++ {
+		want := false
+		for _, a := range second {
+			if a == addrs[i] {
+				want = true
+			}
+		}
+		pa := types.NewProviderConsAddress(vConsAddr(i))
+		var in bool
+		switch kind {
+		case 0:
+			in = e.k.IsAllowlisted(e.ctx, cid, pa)
+		case 1:
+			in = e.k.IsDenylisted(e.ctx, cid, pa)
+		default:
+			in = e.k.IsPrioritylisted(e.ctx, cid, pa)
+		}
+		vh.Assert(in == want, "C02.lists.index-holds-exactly-the-latest-list")
+	}
+	var empty bool
+	switch kind {
+	case 0:
+		empty = e.k.IsAllowlistEmpty(e.ctx, cid)
+	case 1:
+		empty = e.k.IsDenylistEmpty(e.ctx, cid)
+	default:
+		empty = e.k.IsPrioritylistEmpty(e.ctx, cid)
+	}
+	vh.Assert(empty == (len(second) == 0), "C02.lists.index-empty-iff-latest-list-empty")
+}
